@@ -39,6 +39,8 @@ pub struct Req {
     pub tets: J,
 }
 
+pub static LAST_PANIC: std::sync::Mutex<String> = std::sync::Mutex::new(String::new());
+
 pub struct RawOutcome {
     pub code: i64,
     pub msg: String,
@@ -100,12 +102,15 @@ pub fn run_raw(
             } else {
                 "panic".to_string()
             };
-            RawOutcome { code: -1, msg: m.clone(), data: vec![], next: vec![], reqs_bytes: vec![], flags: [false; 3], died: Some(format!("panic: {}", truncate(&m, 160))) }
+            RawOutcome { code: -1, msg: m.clone(), data: vec![], next: vec![], reqs_bytes: vec![], flags: [false; 3], died: Some(format!("panic at {}: {}", LAST_PANIC.lock().map(|g| g.clone()).unwrap_or_default(), truncate(&m, 120))) }
         }
     }
 }
 
 pub fn truncate(s: &str, n: usize) -> String {
+    // messages of the code under test may embed strings that are not UTF-8 (see C01 known finding)
+    let clean = String::from_utf8_lossy(s.as_bytes()).to_string();
+    let s = clean.as_str();
     if s.len() <= n {
         s.to_string()
     } else {
